@@ -178,6 +178,8 @@ class Check:
             "refuted_obligations": [o.as_dict() for o in refuted],
             "inconclusive_obligations": [o.as_dict() for o in all_obls if o.status == "inconclusive"][:20],
             "analysis_errors": self.errors,
+            # every obligation that was decided: [rule, construct, status, location, configuration]
+            "obligation_index": [[o.rule, o.construct, o.status, o.where if isinstance(o.where, (str, type(None))) else str(o.where), o.config] for o in all_obls],
         }
         if self.exhaustive is not None:
             cov["exhaustive"] = self.exhaustive
